@@ -83,7 +83,8 @@ OwnAttributes ==          \* each channel keeps its own slot width, baud rate, l
 RECURSIVE Perms(_)
 Perms(S) == IF S = {} THEN {<<>>} ELSE UNION {{<<c>> \o q : q \in Perms(S \ {c})} : c \in S}
 OrderIrrelevant ==        \* the same channels given in any other order are launched identically
-    status # "idle" => \A q \in Perms(SeqSet(input)) : LaunchOutcome(q) = LaunchOutcome(input)
+    \* (judged on the state right after Launch; the launch list never changes afterwards)
+    status \in {"launched", "SpectrumError"} => \A q \in Perms(SeqSet(input)) : LaunchOutcome(q) = LaunchOutcome(input)
 
 RejectOverlap ==          \* ANY two overlapping channels (not only neighbours) are rejected
     (status # "idle" /\ AnyOverlap(SeqSet(input))) => status = "SpectrumError"
